@@ -470,7 +470,7 @@ func runC18(c *sim.Ctx) {
 func init() {
 	sim.Register(&sim.Prop{
 		ID: "C18", Engine: "E-WORLD", Level: "exploration", Fn: runC18, NewEnv: NewEnv,
-		Runs: map[string]int{"quick": 160, "thorough": 4000},
+		Runs: map[string]int{"quick": 480, "thorough": 8000},
 		Rule: "per run: seeded writer history over the value grid (int64/float64 extremes, numeric-looking and malformed text, time formats, empty and large blobs); histories: scan every column into []byte/string -> mutate every scanned byte -> re-read on the same handle (cache hit, drawn cache size) and on a fresh handle -> compare with SQLite; in a child process: scan -> Close (after the scan, or inside the callback at a drawn row) -> overwrite + truncate the file -> kept values unchanged; additionally every delivered row is scanned into all nine destination kinds, nil and unsupported destinations, at argument counts below/at/above the row width, against an independent model of the documented rules (don't-care for inf/nan/hex/underscore text and out-of-range float->int); evaluations = conversions + re-reads; non-trivial = some scanned byte slice was mutated; distinct = distinct event logs",
 		Real: append([]string{"unix file pager on real files (mmap), page cache"}, realAll...), Stub: []string{},
 		Assumptions: []string{"the conversion-table half is input coverage evaluated on simulated reads, not simulation proper; the lifetime half is decided by the simulated histories"},
